@@ -147,7 +147,10 @@ structure TSpec (env : Env) (par : List Nat) (ns ns' : List Nd) (i : Nat) (a : N
   at_i' : ns'[i]? = some nd'
   /-- the acting node: the result of `nodeStep`, or unchanged when a `put` served a child that is not the last one -/
   acting : nd' = r.nd ∨ (a = .put ∧ nd' = nd ∧ fwd nd.kind = true ∧ nd.hand = 1 ∧ nd.failed = false ∧ nd.done = false ∧
-    r.nd = { nd with hand := 0 } ∧ r.looped = false)
+    r.nd = { nd with hand := 0 } ∧ r.looped = false ∧ ∃ kc, curOf par ns i nd = some kc)
+  /-- a `put` collects the message into the child edge the forward loop is at -/
+  cur_put : a = .put → ∀ kc, curOf par ns i nd = some kc → ∃ x, ns[kc]? = some x ∧ 0 < x.owed ∧
+    ns'[kc]? = some { x with inq := x.inq + 1, ent := x.ent + 1, owed := 0 }
   /-- after the `put` that ends the forward loop no child is owed the message any more -/
   last : a = .put → nd' = r.nd → fwd nd.kind = true → ∀ k x', isChild par i k = true → ns'[k]? = some x' → x'.owed = 0
   other : ∀ k, k ≠ i → isChild par i k = false → ns'[k]? = ns[k]?
@@ -205,7 +208,7 @@ theorem tnode_spec {env : Env} {par : List Nat} {ns ns' : List Nd} {i : Nat} {a 
           rw [hb] at hs
           have := nodeStep_put_some hs hf
           exact ⟨this.1, this.2.2.2.1, this.2.2.2.2.2.1, this.2.2.2.2.1, this.2.2.2.2.2.2⟩
-      refine ⟨nd, r, if keep then nd else r.nd, ⟨hi, hs, h2.symm, ?_, ?_, ?_, ?_, ?_, ?_⟩⟩
+      refine ⟨nd, r, if keep then nd else r.nd, ⟨hi, hs, h2.symm, ?_, ?_, ?_, ?_, ?_, ?_, ?_⟩⟩
       · rw [hns']; exact tupd_length hilt _ _
       · rw [get i]; simp
       · by_cases hk : keep = true
@@ -214,8 +217,32 @@ theorem tnode_spec {env : Env} {par : List Nat} {ns ns' : List Nd} {i : Nat} {a 
           simp only [keep, Bool.and_eq_true, beq_iff_eq] at hk'
           have := hput hk'.1.1 hk'.1.2
           rw [if_pos hk]
-          exact ⟨hk'.1.1, rfl, hk'.1.2, this.2.1, this.2.2.1, this.2.2.2.1, this.1, this.2.2.2.2⟩
+          refine ⟨hk'.1.1, rfl, hk'.1.2, this.2.1, this.2.2.1, this.2.2.2.1, this.1, this.2.2.2.2, ?_⟩
+          -- another child is owed the message, so there is a current child
+          cases hc : curOf par ns i nd with
+          | some kc => exact ⟨kc, rfl⟩
+          | none =>
+            exfalso
+            have hoth := hk'.2
+            rw [hc] at hoth
+            have hcn : curChild par ns i = none := by simpa [curOf, hk'.1.2] using hc
+            rw [curChild_none_iff] at hcn
+            unfold othersOwed at hoth
+            rw [List.any_eq_true] at hoth
+            obtain ⟨k, hkm, hkk⟩ := hoth
+            simp only [Bool.and_eq_true] at hkk
+            have := hcn k (by simpa using hkm) hkk.1.2
+            rw [this] at hkk; simp at hkk
         · left; simp [hk]
+      · intro ha kc hkc
+        subst ha
+        obtain ⟨hf, hcc, _, _⟩ := curOf_some hkc
+        obtain ⟨c, hc', hco, hb⟩ := hcurnd kc hkc
+        refine ⟨c, hc', hco, ?_⟩
+        rw [getc kc c hcc hc']
+        rw [hb] at hs
+        have := nodeStep_put_some hs hf
+        simp only [childEff, hkc, if_true, this.2.1, Option.getD_some]
       · intro ha hnd' hf k x' hc hx'
         subst ha
         -- keep = false, so no other child is owed
